@@ -1105,6 +1105,10 @@ pub struct FindTextIter<'a, 'b> {
 impl<'a, 'b> Iterator for FindTextIter<'a, 'b> {
     type Item = ResultTextSelection<'a>;
     fn next(&mut self) -> Option<Self::Item> {
+        if self.fragment.is_empty() {
+            //an empty fragment would match at the same position forever
+            return None;
+        }
         loop {
             if let Some(resourcehandle) = self.resources.get(self.resourcecursor).copied() {
                 let resource = self
@@ -1164,6 +1168,10 @@ pub struct FindNoCaseTextIter<'a> {
 impl<'a> Iterator for FindNoCaseTextIter<'a> {
     type Item = ResultTextSelection<'a>;
     fn next(&mut self) -> Option<Self::Item> {
+        if self.fragment.is_empty() {
+            //an empty fragment would match at the same position forever
+            return None;
+        }
         loop {
             if let Some(resourcehandle) = self.resources.get(self.resourcecursor).copied() {
                 let resource = self
